@@ -17,6 +17,7 @@ EXPLANATION = (
     "pattern does not start with '/'; (3) in the walk the exclusion test comes before the child is queued either as "
     "an entry or as a directory to descend into; (4) backup passes options.exclude to the walk and excludes nothing "
     "from the basis; restore and diff pass options.exclude to iter_entries."
+    " Added: both globs are added for every pattern (C15.2); pattern lines from a file are only trimmed (C15.2b); entries read from an index are dropped only by the two tests (C15.1d)."
 )
 UNDECIDED = ["semantic equivalence of pruning and per-entry filtering for every glob and tree (needs glob algebra / enumeration)",
              "globset's own matching semantics (trusted)"]
